@@ -40,9 +40,14 @@ LINES = {
     'X3': ([[0.40, 0.42, 0.18], [0.42, 0.40, 0.18]], 'ba'),
     'K': ([[0.98, 0.01, 0.01], [0.01, 0.01, 0.98], [0.01, 0.98, 0.01]], 'ab'),      # confident
     'K2': ([[0.01, 0.98, 0.01], [0.01, 0.01, 0.98]], 'b'),
+    # W: 'b' (total mass 0.413) is only found by a beam of at least three prefixes - after the first frame it ranks third behind '' and 'a',
+    #    with a narrower beam '' (0.252) wins;  Z: a line whose first frame has a single candidate character
+    'W': ([[0.30, 0.28, 0.42], [0.05, 0.35, 0.60]], ''),
+    'Z': ([[0.9, 1e-6, 0.1 - 1e-6], [0.05, 0.9, 0.05]], 'ab'),
 }
-PAGES = {'A': ['X1', 'K', 'X2'], 'B': ['X1', 'K', 'X3'], 'C': ['K', 'K2'], 'D': [], 'E': ['X2'], 'F': ['X1', 'X3']}
+PAGES = {'A': ['X1', 'K', 'X2'], 'B': ['X1', 'K', 'X3'], 'C': ['K', 'K2'], 'D': [], 'E': ['X2'], 'F': ['X1', 'X3'], 'G': ['Z'], 'H': ['W', 'X3']}
 PAGE_IDS = sorted(PAGES)
+N_CORE_PAGES = 6                      # histories of three and more pages use the pages A-F; G and H take part in all histories of up to two
 DEC_CFGS = ['greedy', 'beam', 'beam_lm', 'beam_lm_carry', 'beam1_lm', 'beam1_lm_carry']
 THRESHOLDS = [None, 0.5, 0.0]
 # page alphabet for the PageParser driver: painted lines (y, x0, symbols)
@@ -90,8 +95,10 @@ def run_shard(shard, ctx, tier):
     mod = sys.modules[__name__]
     b = BOUNDS[tier]
     if shard['kind'] == 'dec':
-        n = len(PAGE_IDS)
         for L in range(1, b['depth'] + 1):
+            n = len(PAGE_IDS) if L <= 2 else N_CORE_PAGES
+            if shard['first'] >= n:
+                continue
             for rest in itertools.product(range(n), repeat=L - 1):
                 guarded_check(mod, {'dec': shard['cfg'], 'hist': [shard['first']] + list(rest)}, ctx)
     elif shard['kind'] == 'parser':
